@@ -132,14 +132,10 @@ theorem seqHead_inv (m : Nat) (hm : m < 8) (b : UInt8) (t : Bytes) (len : Option
 
 theorem typeOf_arrayIndef (cur : Bytes) : typeOf cur (initByte 4 31) = .ok .arrayIndef := by
   have : (initByte 4 31).toNat = 159 := rfl
-  simp only [typeOf, this]
-  repeat (first | rw [if_pos (by omega)] | rw [if_neg (by omega)])
-  simp
+  type_of_ifs
 theorem typeOf_mapIndef (cur : Bytes) : typeOf cur (initByte 5 31) = .ok .mapIndef := by
   have : (initByte 5 31).toNat = 191 := rfl
-  simp only [typeOf, this]
-  repeat (first | rw [if_pos (by omega)] | rw [if_neg (by omega)])
-  simp
+  type_of_ifs
 
 /-- the datatype reported for a byte that `array()` / `map()` accepted -/
 theorem datatype_of_array_none (b : UInt8) (t r : Bytes) (h : seqHead 4 (b :: t) = .ok none r) :
@@ -446,5 +442,54 @@ theorem emptyMap_rt : RTon cEmptyMap (fun _ => True) := by
   simp only [skipArm, hb]
   repeat (first | rw [if_pos (by omega)] | rw [if_neg (by omega)])
   simp [hm, skipDef, satMul, skipAfter, popZeros, skipLoop]
+
+/-! ## `codec_by_datatype!` -/
+
+/-- the arm list is searched in order: the first arm whose datatype set contains `t` decodes -/
+theorem byDatatypeArms_select {γ : Type} (arms : List (Arm γ)) (t : DType) (k : Nat) (a : Arm γ)
+    (hk : arms[k]? = some a) (hsel : a.types t = true)
+    (hfirst : ∀ j, j < k → ∀ b, arms[j]? = some b → b.types t = false) :
+    byDatatypeArms arms t = a.dec := by
+  induction arms generalizing k with
+  | nil => simp at hk
+  | cons x xs ih =>
+    cases k with
+    | zero =>
+      simp only [List.getElem?_cons_zero, Option.some.injEq] at hk
+      subst hk
+      simp [byDatatypeArms, hsel]
+    | succ k =>
+      have hx : x.types t = false := hfirst 0 (by omega) x (by simp)
+      simp only [byDatatypeArms, hx]
+      simp only [List.getElem?_cons_succ] at hk
+      exact ih k hk (fun j hj b hb => hfirst (j + 1) (by omega) b (by simpa using hb))
+
+/-- no arm matches: the macro's `_ => Err(message)` -/
+theorem byDatatypeArms_none {γ : Type} (arms : List (Arm γ)) (t : DType) (h : ∀ b ∈ arms, b.types t = false) (cur : Bytes) :
+    byDatatypeArms arms t cur = .err .msg := by
+  induction arms with
+  | nil => rfl
+  | cons x xs ih =>
+    simp only [byDatatypeArms, h x (by simp)]
+    exact ih (fun b hb => h b (by simp [hb]))
+
+/-- **`codec_by_datatype!` dispatch**: an input whose datatype is in the set of arm `k`, and in no
+    earlier arm's set, and is not claimed by the many-field (`Array`) variant, is decoded by arm `k` -/
+theorem byDatatype_single {γ : Type} (many : Option (P γ)) (arms : List (Arm γ)) (cur : Bytes) (t : DType)
+    (k : Nat) (a : Arm γ) (hdt : datatype cur = .ok t) (hmany : many.isSome = true → t ≠ .array)
+    (hk : arms[k]? = some a) (hsel : a.types t = true)
+    (hfirst : ∀ j, j < k → ∀ b, arms[j]? = some b → b.types t = false) :
+    byDatatype many arms cur = a.dec cur := by
+  simp only [byDatatype, hdt]
+  cases many with
+  | none => simp [byDatatypeArms_select arms t k a hk hsel hfirst]
+  | some m =>
+    have : t ≠ .array := hmany rfl
+    simp [this, byDatatypeArms_select arms t k a hk hsel hfirst]
+
+/-- a definite array head goes to the many-field variant, whatever the other arms say -/
+theorem byDatatype_many {γ : Type} (m : P γ) (arms : List (Arm γ)) (cur : Bytes) (hdt : datatype cur = .ok .array) :
+    byDatatype (some m) arms cur = (array cur).andThen fun _ r => m r := by
+  simp [byDatatype, hdt]
 
 end PallasVerif.Wrappers
